@@ -193,6 +193,34 @@ CHECKS.update({
              'only - WriteFileAtomic does not fsync, power-loss durability not claimed; a failing write leaves its target untouched.'),
 })
 
+CHECKS.update({
+    'C14': dict(
+        engine='adminop',
+        technique='TLA+ spec AdminOp.tla (request machine, symbolic signature lists, sender/nonce binding, end-of-block application on replicas) '
+                  'exhaustively model-checked with TLC (incl. every signature list up to length 3/4); graph edge covers and random walks replayed '
+                  'on two real replicas (real Angine assembly, EVMApp, 0xfe precompile, AdminOp plugin, State.ApplyBlock/EndBlock)',
+        level=('model_checking',
+               'Authorisation by distinct current signers > 2/3, sender/nonce binding, replay / direct-call / query attempts and uniform '
+               'next-set application are decided by TLC on the bounded spec and checked edge by edge against the real code: reply class, '
+               'receipt status, nonces, membership/powers/height, Validators.Hash() and app hash across two replicas, plus model-independent '
+               'oracles (distinct-signer authorisation, sender binding, duplicate raw transaction, queries stage nothing).', 'DESIGN.md §4 C14'),
+        note='Bounded: 4 nodes, <=4 signature entries, <=4 requests, 2 replicas; cryptography symbolic in the spec; submitting accounts are EOAs; '
+             'replicas execute in place as the fast-sync executer does.'),
+    'C13': dict(
+        engine='fastsync',
+        technique='TLA+ spec FastSync.tla (pool height, requesters, peers, served-block classes incl. tampered commits, peer removal/timeouts, '
+                  'switch to consensus) exhaustively model-checked with TLC (urgent and free-interleaving configurations); behaviours replayed on '
+                  'a real fast-syncing Angine node (real BlockchainReactor, BlockPool, poolRoutine, verifier/executer closures) fed by scripted '
+                  'peers over real Switches with real blocks and real or tampered commits across a validator-set change',
+        level=('model_checking',
+               'Only source blocks justified by +2/3 of the validator set in force are applied, the end state equals the live node\'s across a '
+               'validator-set change, and nothing crashes, for every bounded mixture of honest and malicious peers, arrival order and removal; '
+               'every stored block is byte-identical to the source block and State.Bytes(), validator sets, AppHash and LastBlockID equal the '
+               'live node\'s at that height.', 'DESIGN.md §4 C13'),
+        note='Bounded: chains of 3-4 blocks, one validator-set change, <=3 peers, <=2 tamperings; only schedules that can be forced on the real '
+             'goroutines (environment moves at quiescence) are replayed, the free interleaving is model-checked only; timers fired programmatically.'),
+})
+
 NOT_YET = 'not yet built: the specification for this property is planned in DESIGN.md §4 but no check is registered yet'
 NOT_APPLICABLE = {
     'C18': 'codec round-trip/robustness/injectivity are statements about pure functions over byte strings; there is no '
